@@ -44,8 +44,8 @@ def EXHAUSTIVE(tier):
 
 def plan(tier):
     if tier == "quick":
-        return {"shards": 8, "examples": 40, "wall": 80}
-    return {"shards": 16, "examples": 500, "wall": 1200}
+        return {"shards": 8, "examples": 100, "wall": 100}
+    return {"shards": 16, "examples": 1500, "wall": 2400}
 
 
 # ----------------------------------------------------------------------------
